@@ -85,13 +85,30 @@ class Checker:
             if got != want:
                 ctx.fail("%s_string_loses_or_merges_factors" % what, case, "%s string %r lists %r, the quantity has %r" % (what, text, got, want))
 
-    def check_wrappers(self, case, q):
+    def check_wrappers(self, case, q, fail=None):
+        from barril.basic.fraction import FractionValue
+        from barril.units import Array, FixedArray, FractionScalar, Scalar
+
+        ctx = self.ctx
+        fail = fail or ctx.fail
+        unit = q.GetUnit()
+        try:
+            self._check_wrappers(case, q, fail)
+        except core.Viol:
+            raise
+        except Exception as e:
+            if core.tree_frame(e) is None and not isinstance(e, (TypeError, ValueError)):
+                raise
+            fail("value_object_rendering_raises:%s" % type(e).__name__, case, "rendering a value object with unit %r raised %s: %s" % (unit, type(e).__name__, str(e)[:120]))
+
+    def _check_wrappers(self, case, q, fail):
         from barril.basic.fraction import FractionValue
         from barril.units import Array, FixedArray, FractionScalar, Scalar
 
         ctx = self.ctx
         unit = q.GetUnit()
         s = Scalar.CreateWithQuantity(q, 1.5)
+        s_inf = Scalar.CreateWithQuantity(q, float("inf"))
         a = Array.CreateWithQuantity(q, [1.0, 2.0])
         fa = FixedArray.CreateWithQuantity(q, [1.0, 2.0], dimension=2)
         fs = FractionScalar.CreateWithQuantity(q, FractionValue(1, (1, 2)))
@@ -100,6 +117,8 @@ class Checker:
             ("Scalar.repr", repr(s), "'%s'" % unit),
             ("Scalar.str", str(s), suffix),
             ("Scalar.GetFormatted", s.GetFormatted(), suffix),
+            ("Scalar.str(inf)", str(s_inf), suffix),
+            ("Scalar.GetFormatted(value_format)", s.GetFormatted(value_format="%.3f"), suffix),
             ("Array.repr", repr(a), unit),
             ("Array.str", str(a), suffix),
             ("FixedArray.repr", repr(fa), unit),
@@ -110,11 +129,11 @@ class Checker:
         for name, text, want in checks:
             ctx.ev()
             if want not in text:
-                ctx.fail("value_object_does_not_show_unit:%s" % name, case, "%s = %r does not show %r" % (name, text, want))
+                fail("value_object_does_not_show_unit:%s" % name, case, "%s = %r does not show %r" % (name, text, want))
         for name, obj in (("Scalar", s), ("Array", a), ("FixedArray", fa), ("FractionScalar", fs)):
             ctx.ev()
             if obj.GetUnit() != unit or obj.GetCategory() != q.GetCategory() or obj.GetQuantityType() != q.GetQuantityType():
-                ctx.fail("value_object_strings_differ_from_quantity:%s" % name, case, "%s reports (%r,%r,%r), its quantity (%r,%r,%r)" % (name, obj.GetUnit(), obj.GetCategory(), obj.GetQuantityType(), unit, q.GetCategory(), q.GetQuantityType()))
+                fail("value_object_strings_differ_from_quantity:%s" % name, case, "%s reports (%r,%r,%r), its quantity (%r,%r,%r)" % (name, obj.GetUnit(), obj.GetCategory(), obj.GetQuantityType(), unit, q.GetCategory(), q.GetQuantityType()))
 
     # -- cases -------------------------------------------------------------------------------
     def ev_tree(self, t):
@@ -154,6 +173,8 @@ class Checker:
         want = (cat, qt, unit, db.GetUnitName(qt, unit))
         if got != want:
             ctx.record("simple_quantity_strings", {"kind": "simple", "cat": cat, "unit": unit}, "simple quantity (%r,%r) renders %r, registered %r" % (cat, unit, got, want))
+        # value objects on every simple quantity show the unit too (symbols such as '%' or 'in/10' included)
+        self.check_wrappers({"kind": "simple", "cat": cat, "unit": unit}, q, fail=ctx.record)
 
 
 def _fix_tree(t):
